@@ -21,8 +21,9 @@ RULE = (
 ASSUMPTIONS = [
     "positions are the ones statham interprets as schemas; keywords inside const/enum/default literals "
     "and property *names* equal to a keyword are negative controls that must parse",
-    "cycles are built from local and cross-file $ref; cycles through keys statham does not interpret are "
-    "not judged either way",
+    "cycles are built from local and cross-file $ref, through schema positions and through default / const / "
+    "enum literals (the loader resolves references there too); cycles through other keys statham does not "
+    "interpret are not judged either way",
 ]
 UNSUPPORTED = {
     "if": {"type": "string"},
@@ -103,6 +104,12 @@ def place(inner, position, rng, title="Host"):
     if position == "additionalItems_single_items":
         # (Draft 6 ignores additionalItems next to a single-schema items, but statham reads it as a schema)
         return {"type": "array", "items": rng.choice([{"type": "string"}, True, {}]), "additionalItems": inner}
+    if position == "default_literal":
+        return {"default": {"k": inner}}
+    if position == "const_literal":
+        return {"const": [inner]}
+    if position == "enum_literal":
+        return {"enum": [1, {"x": inner}]}
     if position == "contains":
         return {"contains": inner}
     if position in ("anyOf", "oneOf", "allOf"):
@@ -294,6 +301,9 @@ def negative_controls(ctx, sut):
 CYCLE_POSITIONS = [
     "properties", "properties_typed", "patternProperties", "additionalProperties", "dependencies",
     "items", "tuple_first", "additionalItems_tuple", "contains", "anyOf", "oneOf", "allOf", "not",
+    # references inside literals are resolved by the loader like any other: a cycle that runs through
+    # default / const / enum values only is a recursive document too
+    "default_literal", "const_literal", "enum_literal",
 ]
 
 
